@@ -102,7 +102,15 @@ def snapshot(p):
 
 def json_tree(p):
     if os.path.islink(p):
-        return {'symlink': os.readlink(p), 'dangling': not os.path.exists(p)}
+        d = {'symlink': os.readlink(p), 'dangling': not os.path.exists(p)}
+        if d['dangling']:
+            try:
+                os.stat(p)
+            except FileNotFoundError:
+                pass
+            except OSError as ex:
+                d['unresolvable'] = ex.strerror
+        return d
     if os.path.isdir(p):
         return {n: json_tree(os.path.join(p, n)) for n in sorted(os.listdir(p))}
     with open(p, 'r', errors='replace') as f:
@@ -702,7 +710,28 @@ def gen_tree(rng, max_nodes, max_depth):
         if not link_free(tnode) or here[:len(tcomps)] == tcomps:
             continue          # no cycles: the target holds no link and is not an ancestor of the link
         d[1][nm] = ('l', tcomps)
+    # links that cannot be resolved for another reason than "no such file": a cycle, or a target below a regular file
+    if rng.chance(0.2):
+        for _ in range(rng.randint(1, 2)):
+            add_unresolvable(rng, rng.choice(dirs)[1], nodes)
     return root
+
+
+def add_unresolvable(rng, d, nodes):
+    kind = rng.below(3)
+    free = [n for n in ['self', 'ping', 'pong', 'thru', 'lp', 'a', 'sub'] if n not in d[1]]
+    if not free:
+        return
+    files = [n for n, v in d[1].items() if v[0] == 'f']
+    if kind == 0 or (kind == 2 and not files):
+        nm = rng.choice(free)
+        d[1][nm] = ('l', ('RAW', nm))                       # self -> self
+    elif kind == 1 and len(free) >= 2:
+        a, b = rng.sample(free, 2)
+        d[1][a] = ('l', ('RAW', b))                         # ping -> pong -> ping
+        d[1][b] = ('l', ('RAW', a))
+    elif files:
+        d[1][rng.choice(free)] = ('l', ('RAW', rng.choice(files) + '/x'))     # through a regular file: ENOTDIR
 
 
 SIB_DIRS = ['A', 'B', 'C', 'D']
@@ -720,6 +749,8 @@ def gen_sibling_tree(rng):
         root[1][nm] = d
     if rng.chance(0.3):
         root[1]['r.txt'] = ('f', 'x')
+    if rng.chance(0.2):
+        add_unresolvable(rng, root if rng.chance(0.6) else root[1][rng.choice(sorted(k for k, v in root[1].items() if v[0] == 'd'))], [])
     if rng.chance(0.2):
         root[1]['ln'] = ('l', (rng.choice(sorted(root[1])),)) if rng.chance(0.7) else ('l', None)
     return root
@@ -819,6 +850,8 @@ def make_tree(base, node, rng):
     for p, t in links:
         if t is None:
             os.symlink('no-such-target', p)
+        elif t[0] == 'RAW':
+            os.symlink(t[1], p)
         else:
             os.symlink(os.path.relpath(os.path.join(base, *t), os.path.dirname(p)), p)
 
@@ -833,7 +866,11 @@ def traversal_paths(base, max_len=9):
         for e in os.scandir(p):
             c = comps + [e.name]
             out.append(c)
-            if e.is_dir():
+            try:
+                isd = e.is_dir()
+            except OSError:          # a cyclic link / a link through a regular file
+                isd = False
+            if isd:
                 go(e.path, c)
 
     go(base, [])
@@ -1151,6 +1188,14 @@ def matcher_features(m, f, under=()):
             matcher_features(x, f, nxt)
 
 
+def iter_nodes(t):
+    if isinstance(t, dict):
+        yield t
+        if 'symlink' not in t:
+            for v in t.values():
+                yield from iter_nodes(v)
+
+
 def has_dup_names(m):
     if not isinstance(m, tuple) or not m:
         return False
@@ -1231,11 +1276,25 @@ def oracle_tables(run, m, root_name, base, paths):
             rc = subprocess.call(RUN_PROGS[k][1] + [os.path.join(base, *c)], stdout=subprocess.DEVNULL, stderr=subprocess.DEVNULL)
             rt.append('(%s, %s, (Some %s))' % (cnat(k), cpath([root_name] + c), cbool(rc == 0)))
 
+    le = []
+    for c in [[]] + paths:
+        q = os.path.join(base, *c)
+        if os.path.islink(q) and not os.path.exists(q):
+            try:
+                os.stat(q)
+                bad = False
+            except FileNotFoundError:
+                bad = False
+            except OSError:
+                bad = True
+            le.append('(0%%nat, %s, %s)' % (cpath([root_name] + c), cbool(bad)))
+
     def lst(xs, ty):
         xs = sorted(xs) if isinstance(xs, set) else xs
         return clist(xs) if xs else '(@nil (%s))' % ty
     return ' '.join([lst(st, 'nat * name * bool'), lst(pt, 'nat * path * bool'), lst(rst, 'nat * name * bool'),
-                     lst(rpt, 'nat * path * bool'), lst(tt, 'nat * list N * option bool'), lst(rt, 'nat * path * option bool')])
+                     lst(rpt, 'nat * path * bool'), lst(tt, 'nat * list N * option bool'), lst(rt, 'nat * path * option bool'),
+                     lst(le, 'nat * path * bool')])
 
 
 VERDICT = {'PASS': 'VPass', 'FAIL': 'VFail', 'HARD_ERROR': 'VHardError', 'VALIDATION_ERROR': 'VValidationError'}
@@ -1364,6 +1423,8 @@ def collect(ctx, res, rng, n_p, n_trees, per_tree, scratch_name='c15-run', p_for
                 f.add('matcher applied to several directories')
             if repr(m).count("('sel', ") >= 2 and ("'contents'" in repr(m) or repr(m).count("'dirc'") >= 2):
                 f.add('nested selections with a partial matcher')
+            if any(isinstance(v, dict) and v.get('unresolvable') for v in iter_nodes(d['tree'])):
+                f.add('tree with an unresolvable link (cycle / through a file)')
             if has_dup_names(m):
                 f.add('files-condition with a repeated name')
             d['features'] = sorted(f)
@@ -1409,7 +1470,8 @@ def run(ctx, res):
                 'top of the list or nested 1-2 levels (half of the enclosing entries followed at the same level by entries with the SAME '
                 'name: create + append, create + clash, several appends), instruction path of 1-3 components, with an entry called MARKER-c15 that is '
                 'searched for in the whole sandbox root and the watched directory; '
-                'matcher cases: trees of <= 9 nodes + <= 3 symbolic links (to file, to directory, dangling; no cycles), depth <= 3, '
+                'matcher cases: trees of <= 9 nodes + <= 3 symbolic links (to file, to directory, dangling) + in 20 % of the trees 1-2 links '
+                'that cannot be resolved (self -> self, ping <-> pong, target below a regular file) as leaves, depth <= 3, '
                 'random creation order; expressions of depth <= 3 over every files-matcher and file-matcher of the model (glob and regex '
                 'name/stem/suffixes/suffix/path patterns, contents with is-empty/equals/! and 9 opaque text matchers, run with 5 '
                 'programs, type, dir-contents), every '
